@@ -122,6 +122,32 @@ def _matrix_case(args):
                     sig = 'rows:iterator-exception'
                     out.append((sig, f'{tag} chunk={k} matrix={s["matrix"]}: {type(e).__name__}: {e}'))
                     break
+            # an iteration with random accesses between its steps: the accesses return the stored rows and the
+            # iteration is the one of the model all the same (the cursor belongs to the iteration)
+            if n >= 2:
+                try:
+                    kk = 1 + (ci % max(1, n - 1))
+                    it = AnnDataRowIterator(p, row_chunk_size=kk, layer=layer or 'X', tmp_dir=d, max_gb=1)
+                    evs, rows = [], []
+                    neval += 1
+                    for step, chunk in enumerate(it):
+                        evs.append({'r0': int(chunk[1]), 'r1': int(chunk[2])})
+                        rows.append(np.asarray(chunk[0]))
+                        a0 = (step + ci) % n
+                        a1 = min(n, a0 + 1 + (step % 2))
+                        ch = it.get_chunk(a0, a1)
+                        ok1 = np.array_equal(np.asarray(ch[0]), want[a0:a1]) and (int(ch[1]), int(ch[2])) == (a0, a1)
+                        sel = [(n - 1 - step) % n, (step + 1) % n] if n > 1 and (n - 1 - step) % n != (step + 1) % n else [step % n]
+                        gb = np.asarray(it.get_batch(sel))
+                        ok2 = np.array_equal(gb, want[sel])
+                        evs.append({'r0': -1, 'r1': 1 if (ok1 and ok2) else 0})
+                    traces.append({'n': n, 'c': kk, 'events': evs})
+                    if rows and not np.array_equal(np.vstack(rows), want):
+                        out.append(('rows:chunk-values', f'{tag} chunk={kk} with random accesses in between: values '
+                                                         f'{np.vstack(rows).tolist()} != {want.tolist()}'))
+                    del it
+                except Exception as e:
+                    out.append(('rows:iterator-exception', f'{tag} interleaved matrix={s["matrix"]}: {type(e).__name__}: {e}'))
             try:
                 it = AnnDataRowIterator(p, row_chunk_size=2, layer=layer or 'X', tmp_dir=d, max_gb=1)
                 for b in s['batches']:
